@@ -130,6 +130,15 @@ def law_nav(res, tree, store, start, path):
         res.fail('get_path', 'from %r path %r reached %r, lexical %r'
                  % (start, path, got.path_for() if got is not None else None,
                     want_abs))
+    # the store API (node[path]) resolves a path like get_path
+    try:
+        via_api = a[path] if path else a
+    except Exception as e:
+        via_api = e
+    if via_api is not want:
+        res.fail('getitem', 'from %r, node[%r] gave %r, get_path reaches %r'
+                 % (start, path, via_api.path_for() if hasattr(
+                     via_api, 'path_for') else via_api, want_abs))
     n = normalize_path(start + path)
     if n != want_abs:
         res.fail('normalize_path', 'normalize_path(%r) = %r, lexical %r'
